@@ -61,6 +61,9 @@ pub struct Case {
     pub real_socket: bool,
     /// scripted engine only: the application pops delivered requests every `pop_every` reads (0 = after every read)
     pub pop_every: usize,
+    /// scripted engine only: 0 = the write half is never used; 1 = between segments the application
+    /// enqueues a response and calls try_write, and the stream accepts / fails / would block in turn
+    pub write_mode: usize,
 }
 
 fn case_json(c: &Case) -> J {
@@ -72,6 +75,7 @@ fn case_json(c: &Case) -> J {
         ("fds_per_segment", J::Arr(c.fds_per_segment.iter().map(|x| J::u(*x as u64)).collect())),
         ("fds_at_eof", J::u(c.fds_at_eof as u64)),
         ("pop_every", J::u(c.pop_every as u64)),
+        ("write_mode", J::u(c.write_mode as u64)),
     ])
 }
 
@@ -266,6 +270,30 @@ fn exec_scripted(ctx: &mut Ctx, c: &Case, next_tag: &mut u64, limit: i32) -> Res
             }
             ctx.rep.count("empty_reads_between_segments");
         }
+        if c.write_mode > 0 && si > 0 {
+            // the write half is used (and fails) between two reads: nothing on the read side may change
+            use crate::stream::WriteEv;
+            let ev = match (si + c.stream.len()) % 5 {
+                0 => WriteEv::Accept(usize::MAX),
+                1 => WriteEv::Err(libc::EPIPE),
+                2 => WriteEv::WouldBlock,
+                3 => WriteEv::Zero,
+                _ => WriteEv::Err(libc::ECONNRESET),
+            };
+            let mut resp = micro_http::Response::new(micro_http::Version::Http11, micro_http::StatusCode::OK);
+            resp.set_body(micro_http::Body::new("answer".to_string()));
+            r.conn.enqueue_response(resp);
+            r.script.push_write(ev);
+            match guarded(|| r.conn.try_write()) {
+                Err(p) => return Err(("fault".into(), format!("try_write panicked: {}", p))),
+                Ok(Err(_)) => ctx.rep.count("failed_writes_between_reads"),
+                Ok(Ok(())) => ctx.rep.count("writes_between_reads"),
+            }
+            r.script.clear_writes();
+            if r.conn.verif_probe().files > 0 {
+                ctx.rep.count("writes_while_descriptors_wait_for_their_request");
+            }
+        }
         r.script.push_read(ReadEv::Data(c.stream[start..end].to_vec(), fds));
         start = end;
         let mut first = true;
@@ -450,7 +478,8 @@ fn exec_socket(ctx: &mut Ctx, c: &Case, next_tag: &mut u64, limit: i32) -> Resul
 }
 
 fn gen_case(rng: &mut Rng, real_socket: bool, big: bool) -> Case {
-    let opts = GenOpts { body_lens: vec![0, 0, 1, 7, 300, 1100, 2500], allow_expect: false, ..Default::default() };
+    let write_mode = if !real_socket && rng.chance(1, 3) { 1 } else { 0 };
+    let opts = GenOpts { body_lens: vec![0, 0, 1, 7, 300, 1100, 2500], allow_expect: write_mode > 0, ..Default::default() };
     let k = rng.range(1, 4);
     let (stream, layouts) = gen::valid_stream(rng, k, &opts);
     let cuts = match rng.below(4) {
@@ -471,7 +500,7 @@ fn gen_case(rng: &mut Rng, real_socket: bool, big: bool) -> Case {
     }
     let fds_at_eof = if !real_socket && rng.chance(1, 6) { rng.range(1, 3) } else { 0 };
     let pop_every = if real_socket { 0 } else { *rng.pick(&[0usize, 0, 2, 3, 1000]) };
-    Case { stream, cuts, fds_per_segment, fds_at_eof, real_socket, pop_every }
+    Case { stream, cuts, fds_per_segment, fds_at_eof, real_socket, pop_every, write_mode }
 }
 
 pub fn run(ctx: &mut Ctx) {
@@ -504,6 +533,7 @@ pub fn replay(ctx: &mut Ctx, case: &J) {
         fds_at_eof: case.gu("fds_at_eof") as usize,
         real_socket: case.gs("engine") == "socketpair",
         pop_every: case.gu("pop_every") as usize,
+        write_mode: case.gu("write_mode") as usize,
     };
     println!("stream: {}\ncuts {:?} fds per segment {:?} at eof {}", show(&c.stream), c.cuts, c.fds_per_segment, c.fds_at_eof);
     exec(ctx, &c);
